@@ -5,6 +5,7 @@ import json
 import os
 import vf
 from checks import wire_common as wc
+from checks import wire_tier as wt
 
 LEVEL = "model_checking"
 LEVEL_TEXT = ("For each scan (tcp syn / fin / null / xmas / flags, udp, icmp, arp) and configuration (subnet x ports, file without subnet, file x ports, raw-IP "
@@ -53,3 +54,6 @@ def run(ctx):
                       replay={"property": "C03", "trace_spec": "WireTrace", "run": [b]})
     for e in events[:2]:
         ctx.sample({k: (v if k != "bytes" else v[:70]) for k, v in e.items()})
+    # socket-level tier: the filter / processor wiring of every packet command on a real AF_PACKET socket with kernel BPF, per chunk
+    n3, rej = wt.run_wire(ctx, select=lambda s: s["expect"]["kind"] == "packet" and s["inject"], label="c03w", focus="reply")
+    wt.report(ctx, "C03", rej)
